@@ -179,14 +179,17 @@ func obModel(capacity int) porcupine.Model {
 }
 
 func c46Scenarios(thorough bool) scenarioSet {
-	alpha := []obOp{{obAdd, obItem{1, "a"}}, {obAdd, obItem{1, "a'"}}, {obAdd, obItem{2, "b"}}, {obFirst, obItem{}}, {obPop, obItem{}}}
-	caps := []int{2}
-	bound := 2
-	if thorough {
-		alpha = []obOp{{obAdd, obItem{1, "a"}}, {obAdd, obItem{1, "a'"}}, {obAdd, obItem{2, "b"}}, {obAdd, obItem{3, "c"}}, {obFirst, obItem{}}, {obPop, obItem{}}}
-		caps = []int{1, 2, 3}
-		bound = 3
+	small := []obOp{{obAdd, obItem{1, "a"}}, {obAdd, obItem{1, "a'"}}, {obAdd, obItem{2, "b"}}, {obFirst, obItem{}}, {obPop, obItem{}}}
+	large := []obOp{{obAdd, obItem{1, "a"}}, {obAdd, obItem{1, "a'"}}, {obAdd, obItem{2, "b"}}, {obAdd, obItem{3, "c"}}, {obFirst, obItem{}}, {obPop, obItem{}}}
+	if !thorough {
+		return c46Group(small, []int{2}, 2)
 	}
+	// thorough: wider alphabet and capacities 1-3 at 2 preemptions, plus the quick alphabet at 3 preemptions
+	return concat([]scenarioSet{c46Group(large, []int{1, 2, 3}, 2), c46Group(small, []int{2}, 3)})
+}
+
+// c46Group: every multiset of three 2-operation programs over alpha, for each capacity.
+func c46Group(alpha []obOp, caps []int, bound int) scenarioSet {
 	var progs [][]obOp
 	for _, a := range alpha {
 		for _, b := range alpha {
@@ -353,6 +356,59 @@ func firstLines(s string, n int) string {
 	return strings.Join(l, " | ")
 }
 
+// c46RaceScenarios: part "race" — the same kind of harness in a -race build with the race detector
+// as the oracle (an access to the buffer that takes no lock has no scheduling point and is atomic
+// for the linearizability part; the detector sees it in every schedule that leaves it unordered).
+func c46RaceScenarios(thorough bool) scenarioSet {
+	alpha := []obOp{{obAdd, obItem{1, "a"}}, {obAdd, obItem{2, "b"}}, {obFirst, obItem{}}, {obPop, obItem{}}}
+	bound := 2
+	var progs [][]obOp
+	for _, a := range alpha {
+		for _, b := range alpha {
+			progs = append(progs, []obOp{a, b})
+		}
+	}
+	if !thorough { // quick: one operation per thread for two of the three threads keeps the race build fast
+		progs = progs[:0]
+		for _, a := range alpha {
+			progs = append(progs, []obOp{a})
+		}
+		for _, a := range alpha {
+			for _, b := range alpha {
+				progs = append(progs, []obOp{a, b})
+			}
+		}
+	}
+	type tup struct{ i, j, k int }
+	var tups []tup
+	for i := 0; i < len(progs); i++ {
+		for j := i; j < len(progs); j++ {
+			for k := j; k < len(progs); k++ {
+				n := len(progs[i]) + len(progs[j]) + len(progs[k])
+				if !thorough && n > 4 {
+					continue
+				}
+				tups = append(tups, tup{i, j, k})
+			}
+		}
+	}
+	model := obModel(2)
+	return scenarioSet{N: len(tups), At: func(n int) scenario {
+		t := tups[n]
+		sc := c46Scenario(2, [][]obOp{progs[t.i], progs[t.j], progs[t.k]}, bound, model)
+		inner := sc.Check
+		sc.Check = func(x *vsync.Execution) (string, []viol) {
+			if x.Deadlock || x.Panic != "" || x.Overrun {
+				// thread-side results of an aborted execution are not ordered with the controller: do not read them
+				return "ABORTED", []viol{{"C46:race-part:aborted", fmt.Sprintf("execution did not complete: deadlock=%v %v %s", x.Deadlock, x.Blocked, firstLines(x.Panic, 3))}}
+			}
+			return inner(x)
+		}
+		return sc
+	}}
+}
+
 func init() {
 	suites["C46"] = &suite{Prop: "C46", Scenarios: c46Scenarios}
+	suites["C46:race"] = &suite{Prop: "C46", Scenarios: c46RaceScenarios, Race: true}
 }
